@@ -170,7 +170,8 @@ def run(O, P):
             base = "".join(rng.choice(TOKENS + ["a", "b", "o", " ", "trim", "concat"]) for _ in range(rng.randrange(1, 60)))
         cfg = F.config_variants(rng)
         if rng.random() < 0.2:
-            cfg["csiMethods"] = cfg["csiMethods"] + [{"src": rng.choice(["", "a-b", "constructor", "__proto__", "ü", "call", "apply", "prototype", "x" * 500]), "dst": rng.choice([None, "", "a-b", "1x", "ü", "if"])}]
+            cfg["csiMethods"] = cfg["csiMethods"] + [{"src": rng.choice(["", "a-b", "constructor", "__proto__", "ü", "call", "apply", "prototype", "x" * 500]), "dst": rng.choice([None, "", "a-b", "1x", "ü", "if", 'a: "aaaaaaaaaaaaaaaaaaa", b', "a: `t${1}`.concat('0123456789abc'), b", "x}; ({y", "a: /re/, b", "a, b"])}]
+            cfg["literals"] = True
             cfg["csiMethods"] = [dict((k, v) for k, v in m.items() if v is not None) for m in cfg["csiMethods"]]
         if rng.random() < 0.15:
             cfg["localVarPrefix"] = rng.choice(["", "a-b", "ü", "1", "x" * 200, " "])
